@@ -114,7 +114,7 @@ def lean_obligations(prop, thorough=False):
             rc, out = sh(["lake", "env", "lean", str(af)], cwd=LEAN, timeout=900)
             axioms, cur = {}, None
             text = out.replace("\n  ", " ")
-            for m in re.finditer(r"'([^']+)' (does not depend on any axioms|depends on axioms: \[([^\]]*)\])", text):
+            for m in re.finditer(r"'(\S+)' (does not depend on any axioms|depends on axioms: \[([^\]]*)\])", text):
                 axioms[m.group(1)] = [] if m.group(3) is None else [a.strip() for a in m.group(3).split(",") if a.strip()]
             if rc != 0:
                 res["errors"].append("axiom audit failed: " + out[-500:])
